@@ -385,8 +385,9 @@ def targetURLOk (t : Bytes) : Option Bool :=
       else if after.head? = some COLON && (after.drop 1).all isDigit then some true
       else none
   else if t.contains 91 || t.contains 93 then none
-  else match lastIndexOf COLON t with
+  else match t.findIdx? (· == COLON) with
     | none => some true
+    -- net/url (Go 1.26, urlstrictcolons): everything after the FIRST colon must be a port
     | some i => some ((t.drop (i + 1)).all isDigit)
 
 def parseRequestHead (ls : List Bytes) : Except Err Head :=
